@@ -429,3 +429,48 @@ Definition honest_multi (W : world) (l : nlist) : bool :=
   | DocOrder => ginvb W (items l)
   | RevOrder => ginvb W (rev (items l))
   end.
+
+(* ---- producers of XPath.cpp that set the order flag (findChildren, findAttributes, findParent, findSelf,
+   findAncestors, findAncestorsOrSelf, findFollowingSiblings, findPreceedingSiblings) on one document:
+   the walk (getFirstChild/getNextSibling, getAttributes()->item(i), getParentOfNode, getPreviousSibling),
+   the node test as an arbitrary predicate, push_back of the matching nodes, then the flag.
+   findDescendants / findFollowing / findPreceeding / findNamespace are not modelled. *)
+Definition produced := (list rnode * order)%type.
+
+Fixpoint chain_up (n : rnode) : list rnode :=            (* repeated getParentOfNode, nearest first *)
+  match n with [] => [] | _ :: r => r :: chain_up r end.
+
+Definition findChildren (t : tree) (test : rnode -> bool) (ctx : rnode) : produced :=
+  (filter test (kid_items t ctx), DocOrder).
+Definition findAttributes (t : tree) (test : rnode -> bool) (ctx : rnode) : produced :=
+  (filter test (attr_items t ctx), DocOrder).
+Definition findParent (t : tree) (test : rnode -> bool) (ctx : rnode) : produced :=
+  (match parent ctx with None => [] | Some p => filter test [p] end, DocOrder).
+Definition findSelf (t : tree) (test : rnode -> bool) (ctx : rnode) : produced :=
+  (filter test [ctx], DocOrder).
+Definition findAncestors (t : tree) (test : rnode -> bool) (ctx : rnode) : produced :=
+  (filter test (chain_up ctx), RevOrder).
+Definition findAncestorsOrSelf (t : tree) (test : rnode -> bool) (ctx : rnode) : produced :=
+  (filter test (ctx :: chain_up ctx), RevOrder).
+Definition findFollowingSiblings (t : tree) (test : rnode -> bool) (ctx : rnode) : produced :=
+  (match ctx with
+   | SC i :: p => filter test (map (fun k => SC k :: p) (seq (S i) (nkids t p - S i)))
+   | _ => []                                              (* document node, attribute: no next sibling *)
+   end, DocOrder).
+Definition findPreceedingSiblings (t : tree) (test : rnode -> bool) (ctx : rnode) : produced :=
+  (match ctx with
+   | SC i :: p => filter test (map (fun k => SC k :: p) (rev (seq 0 i)))
+   | _ => []
+   end, RevOrder).
+
+(* the end of XPath::step for the last step: a list flagged reverse document order is reversed *)
+Definition step_finish (r : produced) : produced :=
+  match snd r with RevOrder => (rev (fst r), DocOrder) | _ => r end.
+
+Definition honest_produced (t : tree) (r : produced) : bool :=
+  forallb (valid t) (fst r) &&
+  match snd r with
+  | Unknown => true
+  | DocOrder => strictly_sorted (map (index t) (fst r))
+  | RevOrder => strictly_sorted (map (index t) (rev (fst r)))
+  end.
